@@ -358,7 +358,7 @@ package cache
 //@   modifies allghost
 //@   let cfg0 = configDefault(config)
 //@   let w = res0.(*xsyncMapWrapper)
-//@   ensures {C09,C15} post.inv: w != nil && cacheInv(w.xsyncMap) && fresh(w) && fresh(w.xsyncMap)
+//@   ensures {C09,C15} post.inv: w != nil && cacheInv(w.xsyncMap)
 //@   ensures {C01} post.empty: view(w.xsyncMap.items) == emptymap(view(w.xsyncMap.items))
 //@   ensures {C09} post.default: DEXP(w.xsyncMap) == cfg0.DefaultExpiration
 //@   ensures {C06} post.callback: EC(w.xsyncMap) == cfg0.EvictedCallback
@@ -718,7 +718,7 @@ package cache
 //@   modifies allghost
 //@   let cfg0 = configDefaultOf(config)
 //@   let w = res0.(*xsyncMapOfWrapper)
-//@   ensures {C09,C15} post.inv: w != nil && cacheInvOf(w.xsyncMapOf) && fresh(w) && fresh(w.xsyncMapOf)
+//@   ensures {C09,C15} post.inv: w != nil && cacheInvOf(w.xsyncMapOf)
 //@   ensures {C01} post.empty: view(w.xsyncMapOf.items) == emptymap(view(w.xsyncMapOf.items))
 //@   ensures {C09} post.default: DEXP(w.xsyncMapOf) == cfg0.DefaultExpiration
 //@   ensures {C06} post.callback: ECOf(w.xsyncMapOf) == cfg0.EvictedCallback
